@@ -245,7 +245,7 @@ def duplicates(family, v):
     return out
 
 
-def descriptor(family, idxs, res):
+def descriptor(family, idxs, res, setup=None):
     """JSON-able description of a failing case.  `dup` lists the duplicate memberships of the state BEFORE the last
     operation and `broken_outside_dup` the violated clause instances that do not concern a duplicated object — both
     are descriptive fields for narrow known-finding patterns; the verdict itself is `broken`."""
@@ -253,8 +253,210 @@ def descriptor(family, idxs, res):
     dup = duplicates(family, res["pre"])
     dup_objs = {d.split(" ")[0] for d in dup}
     outside = [b for b in res["broken"] if not any(re.search(rf"\b{o}\b", b) for o in dup_objs)]
-    return dict(family=family, ops=[cat[k][0] for k in idxs], last_op=res["last"], kind=res["kind"], broken=res["broken"],
-                dup=dup, broken_outside_dup=outside, pre=view_json(family, res["pre"]), post=view_json(family, res["post"]))
+    d = dict(family=family, ops=[cat[k][0] for k in idxs], last_op=res["last"], kind=res["kind"], broken=res["broken"],
+             dup=dup, broken_outside_dup=outside, pre=view_json(family, res["pre"]), post=view_json(family, res["post"]))
+    if setup is not None:
+        d["setup"] = setup
+    return d
+
+
+# ----------------------------------------------------------------------------------------------- persistent scope
+# Objects that are PERSISTENT in a Session with relationship attributes not loaded yet, over a database that already holds
+# a relation R0; the last object of the 'many' kind (c2 / o2 / r1) is NEW (transient or pending).
+R0S = {
+    "o2m": [(), ((0, 0),), ((0, 0), (0, 1)), ((0, 0), (1, 1))],          # (parent, child) pairs stored in the database
+    "o2o": [(), ((0, 0),), ((0, 0), (1, 1))],
+    "m2m": [(), ((0, 0),), ((0, 0), (1, 0))],
+}
+# load state of the relationship attribute of the persistent objects before the first operation, per side
+# (side a = p.children / p.one / l.rights, side b = c.parent / o.owner / r.lefts):
+#   "unloaded"  never loaded, primary / foreign key columns present (an object loaded by a query whose relationship was not touched)
+#   "expired"   Session.expire(obj): every attribute expired, as after a commit
+#   "loaded"    read once before the first operation
+# A SCALAR side is only taken "unloaded" (foreign key present: the previous value is resolved from the identity map) or
+# "loaded": replacing a scalar reference whose previous value is neither loaded nor resolvable without SQL does, as
+# documented (relationship.active_history), not load that previous value, so the previous partner cannot be updated.
+LOADS = {
+    "o2m": [(a, b) for a in ("unloaded", "expired", "loaded") for b in ("unloaded", "loaded")],
+    "o2o": [("loaded", "loaded")],
+    "m2m": [(a, b) for a in ("unloaded", "expired", "loaded") for b in ("unloaded", "expired", "loaded")],
+}
+MODES = ("autoflush-off", "no_autoflush-block", "autoflush-on")
+NEWS = ("new-transient", "new-pending")
+
+
+def setups(family, reduced=False):
+    """the setup dimension: R0 x load states x session mode x state of the new object.  (new-transient, autoflush-on) is
+    outside: a flush that meets an object which was never added to the Session warns that the operation "will not
+    proceed" and drops it.  reduced = the sub-scope used for the longer sequences of the quick tier."""
+    out = []
+    for r0 in R0S[family]:
+        for load in LOADS[family]:
+            for mode in MODES:
+                for new in NEWS:
+                    if new == "new-transient" and mode == "autoflush-on":
+                        continue
+                    if reduced and (mode != "autoflush-off" or new != "new-pending" or load == ("loaded", "loaded")):
+                        continue
+                    out.append(dict(r0=[list(x) for x in r0], load=list(load), mode=mode, new=new))
+    return out
+_DB = {}
+
+
+def _populate(engine, family, r0):
+    if _DB.get("state") == (id(engine), family, r0):
+        return
+    m = H.mappings()
+    with engine.begin() as c:
+        for t in (m.lr, m.C.__table__, m.O.__table__, m.L.__table__, m.R.__table__, m.P.__table__):
+            c.execute(t.delete())
+        if family in ("o2m", "o2o"):
+            c.execute(m.P.__table__.insert(), [dict(id=i) for i in range(NP)])
+            par = {k: pi for pi, k in r0}
+            t = (m.C if family == "o2m" else m.O).__table__
+            n = (NC if family == "o2m" else NO) - 1
+            c.execute(t.insert(), [dict(id=i, pid=par.get(i)) for i in range(n)])
+        else:
+            c.execute(m.L.__table__.insert(), [dict(id=i) for i in range(NL)])
+            c.execute(m.R.__table__.insert(), [dict(id=i) for i in range(NR - 1)])
+            if r0:
+                c.execute(m.lr.insert(), [dict(lid=li, rid=ri) for li, ri in r0])
+    _DB["state"] = (id(engine), family, r0)
+
+
+def r0_view(family, r0):
+    """the abstract two-sided state that the database relation R0 stands for"""
+    if family == "o2m":
+        return (tuple(tuple(k for pi, k in r0 if pi == i) for i in range(NP)),
+                tuple(dict((k, pi) for pi, k in r0).get(i, -1) for i in range(NC)))
+    if family == "o2o":
+        return (tuple(dict(r0).get(i, -1) for i in range(NP)), tuple(dict((k, pi) for pi, k in r0).get(i, -1) for i in range(NO)))
+    return (tuple(tuple(k for li, k in r0 if li == i) for i in range(NL)), tuple(tuple(li for li, k in r0 if k == i) for i in range(NR)))
+
+
+def persistent_env(family, s, r0, new):
+    """objects as a Session holds them after a load in an earlier transaction: primary key / foreign key columns present,
+    relationship attributes NOT loaded (make_transient_to_detached + Session.add: no SQL); last 'many' object is new"""
+    from sqlalchemy.orm import make_transient_to_detached
+    m = H.mappings()
+    if family in ("o2m", "o2o"):
+        par = {k: pi for pi, k in r0}
+        cls, key, n = (m.C, "c", NC) if family == "o2m" else (m.O, "o", NO)
+        e = {"p": [m.P(id=i) for i in range(NP)], key: [cls(id=i, pid=par.get(i)) for i in range(n - 1)] + [cls(id=n - 1)]}
+        old = e["p"] + e[key][:-1]
+        fresh_ = e[key][-1]
+    else:
+        e = {"l": [m.L(id=i) for i in range(NL)], "r": [m.R(id=i) for i in range(NR)]}
+        old = e["l"] + e["r"][:-1]
+        fresh_ = e["r"][-1]
+    for o in old:
+        make_transient_to_detached(o)
+        s.add(o)
+    if new == "new-pending":
+        s.add(fresh_)
+    return e, old
+
+
+def _prepare_side(family, s, e, side, how, only):
+    attr = {"o2m": ("p", "children", "c", "parent"), "o2o": ("p", "one", "o", "owner"), "m2m": ("l", "rights", "r", "lefts")}[family]
+    kind, name = (attr[0], attr[1]) if side == 0 else (attr[2], attr[3])
+    for o in e[kind]:
+        if any(o is x for x in only):
+            if how == "expired":
+                s.expire(o)
+            elif how == "loaded":
+                getattr(o, name)
+
+
+def run_persistent(family, setup, idxs, engine, reload=True, _cache={}):
+    """one operation sequence on persistent objects.  The abstract state cannot be read between operations (reading
+    loads what the scope wants unloaded), so the invariant is judged once, after the last operation; a sequence whose
+    proper prefix (same setup) does not end in an agreeing state is skipped, like in the transient scope."""
+    from sqlalchemy.orm import Session
+    from sqlalchemy import inspect as sa_inspect
+    r0 = tuple(tuple(x) for x in setup["r0"])
+    pre = r0_view(family, r0)
+    if len(idxs) > 1:
+        ck = (family, json.dumps(setup, sort_keys=True), tuple(idxs[:-1]))
+        if _cache.get("key") != ck:
+            _cache["key"], _cache["val"] = ck, run_persistent(family, setup, idxs[:-1], engine, reload=False)
+        pr = _cache["val"]
+        if pr["status"] != "ok":
+            return dict(status="skipped")
+        pre = pr["final"]
+    _populate(engine, family, r0)
+    cat = catalogue(family)
+    s = Session(engine, autoflush=setup["mode"] == "autoflush-on")
+    try:
+        e, old = persistent_env(family, s, r0, setup["new"])
+        for side in (0, 1):                     # expire first, then load: loading one side must not be undone
+            if setup["load"][side] == "expired":
+                _prepare_side(family, s, e, side, "expired", old)
+        for side in (0, 1):
+            if setup["load"][side] == "loaded":
+                _prepare_side(family, s, e, side, "loaded", old)
+        raised = 0
+        name = None
+        info = dict(pending=0, pending_zero_rows=0, pending_some_rows=0)
+
+        def body():
+            nonlocal raised, name
+            for step, k in enumerate(idxs):
+                name, fn, _ = cat[k]
+                try:
+                    fn(e)
+                except ALLOWED:
+                    raised += 1
+                except Exception as ex:
+                    return dict(status="fail", kind="exception", pre=pre, post=pre, last=name,
+                                broken=[f"raised {type(ex).__name__}: {ex}"[:200]])
+            # coverage only: was a mutation queued on a collection that is not loaded, and how many rows will it load
+            for o in old:
+                st_ = sa_inspect(o)
+                pm = getattr(st_, "_pending_mutations", None) or {}
+                for key in pm:
+                    info["pending"] += 1
+                    v0 = r0_view(family, r0)
+                    oid = st_.identity[0]
+                    rows = v0[0][oid] if key in ("children", "rights") else v0[1][oid] if key == "lefts" else ()
+                    info["pending_zero_rows" if not rows else "pending_some_rows"] += 1
+            try:
+                return view(family, e)
+            except Exception as ex:
+                return dict(status="fail", kind="exception", pre=pre, post=pre, last=name,
+                            broken=[f"reading both sides afterwards raised {type(ex).__name__}: {ex}"[:200]])
+
+        if setup["mode"] == "no_autoflush-block":
+            with s.no_autoflush:
+                v = body()
+        else:
+            v = body()
+        if isinstance(v, dict):
+            return v
+        b = broken(family, v)
+        if b:
+            return dict(status="fail", kind="invariant", pre=pre, post=v, last=name, broken=b)
+        out = dict(status="ok", changed=int(v != r0_view(family, r0)), raised=raised, final=v, **info)
+        if reload:
+            for objs in e.values():
+                s.add_all(objs)
+            try:
+                s.flush()
+                s.expire_all()
+                v2 = view(family, e)
+            except Exception as ex:
+                return dict(status="fail", kind="reload", pre=v, post=v, last="flush+expire+reload",
+                            broken=[f"flush / reload raised {type(ex).__name__}: {str(ex)[:160]}"])
+            b = [x + " (after reload)" for x in broken(family, v2)]
+            if pairs(family, v2) != pairs(family, v):
+                b.append(f"reloaded relation {sorted(pairs(family, v2))} != in-memory relation {sorted(pairs(family, v))}")
+            if b:
+                return dict(status="fail", kind="reload", pre=v, post=v2, last="flush+expire+reload", broken=b)
+            out["db"] = True
+        return out
+    finally:
+        s.rollback()
+        s.close()
 
 
 # ----------------------------------------------------------------------------------------------- worker
@@ -267,12 +469,34 @@ def _worker(job):
     family = job["family"]
     cat = catalogue(family)
     db = None
-    if job.get("db"):
+    setup = job.get("persistent")
+    if job.get("db") or setup:
         if _ENGINE is None:
             _ENGINE = H.new_engine()
         db = _ENGINE
     res = dict(evaluations=0, nontrivial=0, skipped_prefix_already_broken=0, raised_allowed=0, db_evaluations=0, failures=[], samples=[],
                finals=set(), per_family={family: 0})
+    if setup:
+        res.update(persistent_evaluations=0, persistent_nontrivial=0, persistent_pending_mutation=0,
+                   persistent_pending_on_zero_row_collection=0, persistent_pending_on_nonempty_collection=0, persistent_samples=[])
+        for idxs in H.job_sequences(len(cat), job):
+            r = run_persistent(family, setup, idxs, db, reload=job["reload"])
+            res["persistent_evaluations"] += 1
+            st = r["status"]
+            if st == "skipped":
+                res["skipped_prefix_already_broken"] += 1
+            elif st == "fail":
+                res["failures"].append(descriptor(family, idxs, r, setup))
+            else:
+                res["persistent_nontrivial"] += 1 if r["changed"] else 0
+                res["persistent_pending_mutation"] += 1 if r["pending"] else 0
+                res["persistent_pending_on_zero_row_collection"] += 1 if r["pending_zero_rows"] else 0
+                res["persistent_pending_on_nonempty_collection"] += 1 if r["pending_some_rows"] else 0
+                res["db_evaluations"] += 1 if r.get("db") else 0
+                if not res["persistent_samples"] and r["pending_zero_rows"] and r["changed"] and len(idxs) == job["length"]:
+                    res["persistent_samples"].append(dict(family=family, setup=setup, ops=[cat[k][0] for k in idxs],
+                                                          final=view_json(family, r["final"])))
+        return res
     for idxs in H.job_sequences(len(cat), job):
         r = run_ops(family, idxs, db)
         res["evaluations"] += 1
